@@ -365,6 +365,7 @@ TYPE_TEXTS = [
     ("Time", "235959.500[-8:PST]"), ("Time", "250000"), ("Decimal", "1,50"), ("Decimal", "abc"), ("Integer", "42"), ("Bool", "Y"), ("Bool", "x"), ("String", "a&amp;b"),
     ("DateTime", "20200101120000.000[+8:HKT]"), ("DateTime", "20200101120000.000[-:HKT]"), ("DateTime", "20200101120000.000[-3:HKT]"), ("DateTime", "20200101120000.000[-:EST]"),
     ("DateTime", "20200101120000.000[+1:CET]"), ("DateTime", "20200101120000.000[-:CET]"), ("Time", "120000.000[+9:JST]"), ("Time", "120000.000[-:JST]"), ("DateTime", "20200101120000.000[0:EST]"),
+    ("Decimal", "1234567890123456789012345678901234567890.125"), ("Decimal", "-0.00"), ("Decimal", "0.1234567890123456789012345678901234567890"),
 ]
 def _v1(charset, encoding="USASCII"):
     return ("OFXHEADER:100\r\nDATA:OFXSGML\r\nVERSION:102\r\nSECURITY:NONE\r\nENCODING:%s\r\nCHARSET:%s\r\nCOMPRESSION:NONE\r\nOLDFILEUID:NONE\r\nNEWFILEUID:NONE\r\n\r\n" % (encoding, charset)).encode("ascii")
